@@ -290,6 +290,18 @@ func (s *IndexedState) add(ctx *Context, id string, x Map) (string, error) {
 	if err != nil {
 		return id, err
 	}
+	// Whatever is stored under this id is about to be replaced.  If
+	// that is a rule, remove its pattern from the rule index;
+	// otherwise events matching the former pattern would still find
+	// this id (and fail if the id no longer holds a rule).
+	if previous, have := s.IdToFact[id]; have {
+		if old, _ := ExtractRule(ctx, previous, false); old != nil {
+			if err = s.unindexRule(ctx, id, old); err != nil {
+				return "", err
+			}
+		}
+	}
+
 	if rule != nil {
 		// ToDo: Metric(ctx, "RuleUpdated", "location", s.Name, "ruleId", id)
 		Log(DEBUG, ctx, "IndexedState.add", "state", s.Name, "rule", rule, "ruleId", id)
@@ -349,13 +361,6 @@ func (s *IndexedState) indexRule(ctx *Context, id string, rule map[string]interf
 	patterns := GetRulePatterns(ctx, rule)
 	if nil == patterns {
 		return NewSyntaxError("No 'when' in rule.")
-	}
-
-	_, have := s.IdToFact[id]
-	if have {
-		if err := s.unindexRule(ctx, id, rule); err != nil {
-			return err
-		}
 	}
 
 	for _, m := range patterns {
